@@ -87,6 +87,29 @@ section SimplexFold
 open Finset
 
 omit [LinearOrder K] [IsStrictOrderedRing K] in
+theorem map_getD' (x : List K) (f : K → K) (i : ℕ) (hi : i < x.length) :
+    (x.map f).getD i 0 = f (x.getD i 0) := by
+  simp [List.getD_eq_getElem?_getD, hi]
+
+omit [LinearOrder K] [IsStrictOrderedRing K] in
+theorem zipWith_getD' (a b : List K) (f : K → K → K) (i : ℕ) (ha : i < a.length)
+    (hb : i < b.length) : (List.zipWith f a b).getD i 0 = f (a.getD i 0) (b.getD i 0) := by
+  simp [List.getD_eq_getElem?_getD, ha, hb]
+
+omit [LinearOrder K] [IsStrictOrderedRing K] in
+theorem foldl_count (x : List K) (a : K) :
+    x.foldl (fun acc _ => acc + 1) a = a + (x.length : K) := by
+  induction x generalizing a with
+  | nil => simp
+  | cons h t ih => simp only [List.foldl_cons, ih, List.length_cons]; push_cast; ring
+
+/-- The prior of the KL proximal at entry `i`: `g_i`, or 1 when `g is None`. -/
+def priorAt (g : Option (List K)) (i : ℕ) : K :=
+  match g with
+  | some _ => gAt g i
+  | none => 1
+
+omit [LinearOrder K] [IsStrictOrderedRing K] in
 theorem sumK_eq_sum (l : List K) : sumK l = l.sum := by
   unfold sumK; exact List.sum_eq_foldl.symm
 
@@ -225,10 +248,18 @@ def PTree.val : PTree E → E → ℝ
 noncomputable def PTree.prox (rsqrt : ℝ → ℝ) : PTree E → ℝ → E → E
   | .leaf _ _ P => P
   | .trans t y => proxTranslation (t.prox rsqrt) y
-  | .argScale t s => proxArgScaling (t.prox rsqrt) s
+  | .argScale t s => proxArgScaling0 (t.prox rsqrt) s
   | .leftScale t c => proxLeftScale (t.prox rsqrt) c
   | .quad t a u => proxQuadPerturb rsqrt (t.prox rsqrt) a (some u)
   | .conj t _ _ => proxConvexConj (t.prox rsqrt)
+
+theorem proxArgScaling0_of_ne {V : Type} [Add V] [Sub V] [SMul ℝ V] (P : ℝ → V → V) (s : ℝ)
+    (hs : s ≠ 0) : proxArgScaling0 P s = proxArgScaling P s := by
+  funext σ x
+  unfold proxArgScaling0
+  rcases lt_or_gt_of_ne hs with h | h
+  · rw [if_pos h]
+  · rw [if_neg (not_lt.mpr (le_of_lt h)), if_pos h]
 
 /-- Side conditions under which the code's rules are valid: correct leaves, non-zero argument
 scaling, positive left scaling, non-negative quadratic coefficient, a genuine conjugate. -/
@@ -247,6 +278,17 @@ noncomputable def exTree : PTree ℝ :=
     (.leaf Set.univ (fun z : ℝ => 2 * ‖z - 1‖) (proxL2 (fun v : ℝ => ‖v‖) 0 2 (some 1)))
     5) (-3)) 4) (3 / 2) 7
 
+
+/-- Example tree over `ℝ` with the executed soft threshold at the leaf:
+`3·(2|(· − 5) − 1|) + ½‖·‖² + ⟪·, 7⟫`. -/
+noncomputable def exTreeL1 : PTree ℝ :=
+  .quad (.leftScale (.trans
+    (.leaf Set.univ (fun z : ℝ => 2 * |z - 1|) (fun σ x => softCode (σ * 2) x 1)) 5) 3) (1 / 2) 7
+
+/-- Example tree over `ℝ` with the executed Huber proximal at the leaf, under a negative
+argument scaling and a translation. -/
+noncomputable def exTreeHuber : PTree ℝ :=
+  .trans (.argScale (.leaf Set.univ (huberFn (1 / 2)) (fun σ => huberCode (1 / 2) σ)) (-3)) 2
 
 end Abstract
 
